@@ -76,47 +76,67 @@ CHECKS = {
         technique="TLA+ state machine Binder.tla (preprocess_args + Signature.bind_arguments, one action per branch) checked by TLC "
         "against CPythonBind.tla (CPython's binding rules); TLC-enumerated/simulated (signature, call) cases replayed through the "
         "real binder, the real visitor and really executed under CPython; observations adjudicated by TLC (BinderTrace.tla), which "
-        "first validates the oracle model against the real call outcomes",
+        "first validates the oracle model against the real call outcomes; CallableKinds.tla / CallableKindsTrace.tla model signature "
+        "extraction from runtime objects: per kind of callable object x access path the receiver transformation "
+        "(signature_from_value -> _uncached_get_argspec -> make_bound_method / bind_self) followed by the binder, against what "
+        "evaluating the call does under CPython; cases realised as real source checked by the visitor (same and importing "
+        "module) and really performed",
         text="Model checking: TLC proves verdict <=> CPython binding for every signature of <=3 (quick) / <=4 and <=5 (thorough) "
         "parameters x call shapes incl. */** literals, and accept => exists expansion / reject => no non-empty expansion for "
         "list[int]/tuple[int,...]/dict[str,int] star arguments, outside two named deviation classes; 6 parameters by simulation; "
         "the real code is bound by replay (exhaustive at the emit bound in thorough) with per-parameter positions and error "
-        "branch compared (drift).",
+        "branch compared (drift). Additionally, for 21 kinds of callable object x access path (function, lambda, async, "
+        "wraps-wrapper, annotated, static/class/instance method via class / instance / typed receiver, callable instance, class "
+        "with __init__ / __new__ / both / inherited / none, dataclass, NamedTuple, partial; <=2 quick / <=3 thorough parameters "
+        "beyond the receiver) TLC proves that the receiver transformation followed by the binder agrees with CPython's call "
+        "semantics outside three further named classes and two unchecked-by-design kinds; replayed through the real visitor "
+        "and real calls (10k observations quick).",
         design="2/C05",
         note=TRUSTED + " Arguments are ints and parameters are unannotated; keywords range over parameter names + one foreign "
-        "name; the existential clause enumerates expansions up to max(4, number of parameters).",
+        "name; the existential clause enumerates expansions up to max(4, number of parameters); in the kinds slice receiver "
+        "parameters are never passed by explicit keyword, bodies are trivial (any TypeError is a binding error), builtins and "
+        "typeshed signatures are out of scope.",
     ),
     "C06": dict(
-        technique="TLA+ spec Calls.tla (EXTENDS Assign/Values): a fixed library of 70 annotated functions (data of the spec; the real "
+        technique="TLA+ spec Calls.tla (EXTENDS Assign/Values): a fixed library of 108 annotated functions (data of the spec; the real "
         "Python library is generated from TLC's JSON) x every binding call over 15 literal arguments (<=3 args, <=2 keywords, "
-        "plain and *(..)/**{..} forms); ImplCall = transcription of Signature.check_call_with_bound_args (pass 1 bounds via "
+        "plain, *(..)/**{..} and mixed explicit+star forms; literal menu incl. 0 / False / 0.0 / "" / None / ()); ImplCall = transcription of Signature.check_call_with_bound_args (pass 1 bounds via "
         "can_assign with type variables, typevar.solve, default return, return substitution, pass 2, duplicate-diagnostic "
-        "suppression, constructor/bound-method signatures) and of TypeObject's protocol cache over call sessions; Ref = Member of "
+        "suppression, constructor/bound-method signatures, the default exemption decided by identity (signature.py:654), "
+        "receiver-as-argument for `self: T`, allow_call for NamedTuple, return inferred from the body) and of TypeObject's protocol cache over call sessions; Ref = Member of "
         "the runtime objects in the declared types under some admissible type-variable assignment, CPython binding, body model. "
         "Exhaustive TLC + simulation; every TLC case realised, checked by the real visitor, really executed, and adjudicated by "
         "TLC (CallsTrace.tla: oracle models = real CPython, property, drift)",
-        text="Model checking: for every library function x literal argument tuple (quick 8.7e3 / thorough 1.6e5 states) the model "
+        text="Model checking: for every library function x literal argument tuple (quick 3.2e5 states incl. the defaults / parameter-kinds / call-forms / returns slice of 2.6e4; thorough adds 1.1e5 for that slice) the model "
         "is diagnosed iff some argument does not belong to its declared type (for generics: under no admissible type-variable "
         "value), the inferred type contains the modelled result, and the inferred solution fits every argument; bound to the "
-        "code by replaying every case (2.6e3 quick / 5.7e4 thorough + simulation) through the real checker and real CPython, "
-        "each observation judged by TLC, drift 0; one named deviation class (protocol-cache-ignores-type-arguments).",
+        "code by replaying 5.5e3 cases quick (first-built slice in full; defaults slice: all <=1-argument calls plus 1 000 sampled two-argument calls) / all cases thorough + simulation through the real checker and real CPython, "
+        "each observation judged by TLC, drift 0; one named deviation class (orbound-ignored); the protocol-cache defect was repaired.",
         design="2/C06",
         note=TRUSTED + " The result clause is judged on calls whose arguments fit. Candidates for type variables in the oracle: "
         "object, bound, constraints, int/str/bool/float/A/B. Sessions need a fresh Checker; all other calls share one Checker "
-        "per process.",
+        "per process. A def whose default lies outside its annotation is itself reported (incompatible_default); the result "
+        "clause is not judged for calls that rely on such a default.",
     ),
     "C07": dict(
         technique="TLA+ state machine SigCompat.tla (Signature.can_assign incl. *args/**kwargs absorption) vs behavioural inclusion "
         "stated with the C05 oracle; pairs replayed through KnownValue(f).can_assign(KnownValue(g)) and the visitor (Literal[f] "
         "parameter); both functions really called with every call shape and the landing parameter of each argument recorded; "
-        "adjudicated by TLC (SigCompatTrace.tla)",
+        "adjudicated by TLC (SigCompatTrace.tla); entry points modelled as their own machines in CallableRoutes.tla (override check "
+        "over every defining ancestor, Callable[[..], R] / Callable[..., R] parameters, protocol members; receiver kinds) and "
+        "driven separately through the real visitor (incompatible_override enabled) on realised class hierarchies / Callable "
+        "parameters / Protocol classes with real method calls on instances, adjudicated by CallableRoutesTrace.tla",
         text="Model checking: accept => every call shape (<=3 positionals, <=3 keywords) bound by the expected signature is bound "
         "by the actual one, for all pairs <=3x2 (quick) / <=3x3 (thorough) parameters, outside one named (TLC-proved tight) "
         "deviation class; typed variant (chain C<:B<:A, Any) checks parameter contravariance/return covariance at <=1x2 / "
-        "<=2x2; 4x4 by simulation.",
+        "<=2x2; 4x4 by simulation. Entry points (CallableRoutes.tla): override hierarchies of 1-3 base classes (chains, unrelated "
+        "bases, mixed; every defining ancestor is an obligation), Callable parameters and protocol methods, receiver kinds self "
+        "/ self positional-only / none; quick <=1x1 (exhaustive), <=1x2 and typed <=1x1 (sampled), thorough <=2x2 / 3 bases "
+        "<=1x2, 3x3 by simulation.",
         design="2/C07",
-        note=TRUSTED + " Expected parameters are canonically named; types are a 3-class chain; Callable[...] / protocol / override "
-        "entry points share Signature.can_assign but are not driven separately.",
+        note=TRUSTED + " Expected parameters are canonically named; types are a 3-class chain; override hierarchies are diamond-free; the receiver "
+        "parameter is unannotated; names of ignored_for_incompatible_overrides and Callable[...] argument lists are outside the "
+        "property; bound-method arguments, overloads and properties are not driven.",
     ),
     "C08": dict(
         technique="TLA+ state machine Overloads.tla (two-pass loop of OverloadedSignature.check_call with any/union/union+any "
@@ -177,17 +197,23 @@ CHECKS = {
     ),
     "C12": dict(
         level="exploration",
-        technique="TLA+ spec Totality.tla: (i) a TLC generator of deliberately odd / ill-typed modules (sequences of 42 fragment "
-        "kinds x 13 operand kinds), (ii) the life-cycle automaton of one check (Start -> Diag* -> End, every Diag WellFormed, "
+        technique="TLA+ spec Totality.tla: (i) a TLC generator of deliberately odd / ill-typed modules (96 fragment kinds x operand kinds x scope nestings over def / async def / class up to depth 3; "
+        "layouts: 16 diagnostic sites x 12 paddings incl. non-ASCII, TAB, FF, U+2028 x line endings), (ii) an exhaustively "
+        "checked position model of show_error (physical lines, node positions, context window, caret), (iii) the life-cycle automaton of one check (Start -> Diag* -> End, every Diag WellFormed, "
         "no Raise action); every generated module is checked by the real visitor under two enabled-code configurations and the "
         "Begin/Diag/End/Raised event stream validated by TLC (TotalityTrace.tla); the public value API is exercised on "
-        "TLC-generated pairs of Values (Assign.tla's generator)",
-        text="Exploration with a TLA+ generator and acceptance automaton: every single fragment exhaustively (546 modules x 2 "
-        "configurations), sequences of up to 4 fragments by TLC simulation, 8k (quick) / 108k (thorough) value pairs through "
-        "can_assign / unite_values / substitute_typevars / str / hash / simplify. Totality is observed, not derived. Three "
-        "crashes found this way were repaired (implicit_any on metaclass keyword, literal slice, starred string annotation).",
+        "TLC-generated pairs of Values (Assign.tla's generator plus TotalityValues.tla: odd KnownValues, bound methods with odd "
+        "parameter lists, partials, overloads, Callable signatures, Annotated / extension terms, TypeVars, unpacked sequences; 12 "
+        "binary and 25 unary operations per pair; pyanalyze.runtime functions on (object, type) pairs)",
+        text="Exploration with a TLA+ generator and acceptance automaton: every single fragment exhaustively (1.4k modules x 2 "
+        "configurations), nestings and sequences by TLC simulation, 1.7k layouts, ~13k (quick) value pairs through can_assign / "
+        "unite_values / substitute_typevars / str / hash / simplify / runtime API; every diagnostic's position and rendered "
+        "context judged against the file. Totality is observed, not derived. Eleven crashes / ill-formed positions found this "
+        "way were repaired; the UTF-8 byte-offset column is an open finding.",
         design="2/C12",
-        note=TRUSTED + " The grammar is the modelled one, not all of Python; modules that fail to import are outside the domain.",
+        note=TRUSTED + " The grammar is the modelled one, not all of Python; modules that fail to import are outside the domain; the line model is CPython's physical lines; well-formed odd objects "
+        "may raise in __eq__ / __hash__ / __bool__ only (a raising __repr__ or a __getattr__ raising other than AttributeError is "
+        "outside the domain).",
     ),
     "C13": dict(
         technique="TLA+ specs Annotations.tla (transcriptions of pyanalyze's three annotation evaluators -- runtime object, "
